@@ -34,6 +34,40 @@ const NOTES: [&str; 14] = [
     "a\r\nb", "a\rb", "l1\r\n\r\nl2\rl3", "cr\r end",
 ];
 
+/// Unicode `White_Space` characters that are NOT XML white space (quick-xml's `trim_text` strips exactly space, tab,
+/// CR, LF): they are content, at the edges as much as in the middle.  `str::trim` would strip all of them.
+const UWS: [char; 11] = ['\u{a0}', '\u{3000}', '\u{2003}', '\u{2028}', '\u{2029}', '\u{1680}', '\u{202f}', '\u{205f}', '\u{85}', '\u{b}', '\u{c}'];
+/// the same without the control characters a `Name` refuses
+const UWS_NAME: [char; 8] = ['\u{a0}', '\u{3000}', '\u{2003}', '\u{2028}', '\u{2029}', '\u{1680}', '\u{202f}', '\u{205f}'];
+
+/// a text with such characters at the very edges and/or in the middle, alone or combined with ASCII blanks;
+/// `outermost` = keep a non-XML blank outermost (the text is then its own quick-xml trim)
+fn edge_blank_text(rng: &mut Rng, pool: &[char], outermost: bool) -> String {
+    let u = |rng: &mut Rng| pool[rng.below(pool.len())];
+    let core = *rng.pick(&["", "x", "12", "\u{3053}\u{306e}\u{5b57}", "a b"]);
+    let mut s = String::new();
+    match rng.below(5) {
+        0 => {}
+        1 => s.push(u(rng)),
+        2 => { s.push(u(rng)); s.push(' '); }
+        3 => { if !outermost { s.push(' '); } s.push(u(rng)); s.push('\t'); }
+        _ => { s.push(u(rng)); s.push(u(rng)); }
+    }
+    s.push_str(core);
+    if rng.chance(1, 3) { s.push(u(rng)); s.push_str("m"); }
+    match rng.below(5) {
+        0 => {}
+        1 => s.push(u(rng)),
+        2 => { s.push(' '); s.push(u(rng)); }
+        3 => { s.push('\n'); s.push(u(rng)); if !outermost { s.push(' '); } }
+        _ => { s.push(u(rng)); s.push(u(rng)); }
+    }
+    if s.is_empty() || (outermost && s.trim_matches(|c| c == ' ' || c == '\t' || c == '\r' || c == '\n') != s) {
+        s = format!("{}{}{}", u(rng), core, u(rng));
+    }
+    s
+}
+
 fn pk<'a>(rng: &mut Rng, xs: &[&'a str]) -> &'a str {
     xs[rng.below(xs.len())]
 }
@@ -60,8 +94,15 @@ fn color(rng: &mut Rng) -> Option<Color> {
     };
     Some(Color::new(ch(), ch(), ch(), ch()).unwrap())
 }
+fn name_text(rng: &mut Rng) -> String {
+    match rng.below(6) {
+        0 => edge_blank_text(rng, &UWS_NAME, false).replace(['\t', '\n'], " "),
+        1 => pk(rng, &[" lead", "trail ", " both ", "\u{a0}", "in  side"]).to_string(),
+        _ => pk(rng, &NAMES).to_string(),
+    }
+}
 fn name(rng: &mut Rng) -> Option<Name> {
-    if rng.chance(1, 2) { Some(Name::new(pk(rng, &NAMES)).unwrap()) } else { None }
+    if rng.chance(1, 2) { Some(Name::new(&name_text(rng)).unwrap()) } else { None }
 }
 fn transform(rng: &mut Rng) -> AffineTransform {
     let mut t = AffineTransform::default();
@@ -74,6 +115,10 @@ fn transform(rng: &mut Rng) -> AffineTransform {
     t
 }
 fn pstr(rng: &mut Rng, plain: bool) -> String {
+    if rng.chance(1, 6) {
+        // newline-free, so inside the guards either way
+        return edge_blank_text(rng, &UWS, true).replace('\n', "\u{2028}");
+    }
     if plain { rng.pick(&["plain", "a<b>&\"c'", "\u{e9}", "x y", "k.1"]).to_string() } else { rng.pick(&STRS).to_string() }
 }
 fn pvalue(rng: &mut Rng, depth: usize, plain: bool) -> plist::Value {
@@ -105,7 +150,9 @@ impl Ids {
             return None;
         }
         self.0 += 1;
-        Some(Identifier::new(&format!("{}{}", rng.pick(&["id", "a b", "<&>", "~"]), self.0)).unwrap())
+        let pre = *rng.pick(&["id", "a b", "<&>", "~", " lead", "  "]);
+        let post = *rng.pick(&["", "", " ", "  t "]);
+        Some(Identifier::new(&format!("{}{}{}", pre, self.0, post)).unwrap())
     }
 }
 
@@ -124,10 +171,12 @@ pub fn gen_glyph(rng: &mut Rng, plain: bool) -> Glyph {
     let n = rng.below(3);
     g.codepoints = Codepoints::new((0..n).map(|_| *rng.pick(&['A', 'a', '\u{e9}', '\u{1F600}', '\u{10FFFF}', '\u{0}'])));
     if rng.chance(1, 2) {
-        g.note = Some(if plain { rng.pick(&["a note", "x & y <z>", "line1\nline2", "\u{1F600}", "two  blanks", "a\r\nb", "a\rb", "l1\r\n\r\nl2\rl3"]).to_string() } else { rng.pick(&NOTES).to_string() });
+        g.note = Some(if rng.chance(1, 4) {
+            edge_blank_text(rng, &UWS, plain)
+        } else if plain { rng.pick(&["a note", "x & y <z>", "line1\nline2", "\u{1F600}", "two  blanks", "a\r\nb", "a\rb", "l1\r\n\r\nl2\rl3"]).to_string() } else { rng.pick(&NOTES).to_string() });
     }
     if rng.chance(1, 3) {
-        g.image = Some(Image::new(PathBuf::from(*rng.pick(&["img.png", "a b.png", "\u{e9}.jpg", "x&y.png"])), color(rng), transform(rng)).unwrap());
+        g.image = Some(Image::new(PathBuf::from(*rng.pick(&["img.png", "a b.png", "\u{e9}.jpg", "x&y.png", "\u{a0}nb.png\u{3000}", " sp .png ", "\u{2003}"])), color(rng), transform(rng)).unwrap());
     }
     for _ in 0..rng.below(3) {
         let id = ids.next(rng);
@@ -177,7 +226,7 @@ pub fn gen_glyph(rng: &mut Rng, plain: bool) -> Glyph {
     }
     for _ in 0..rng.below(3) {
         let id = ids.next(rng);
-        let mut k = Component::new(Name::new(pk(rng, &NAMES)).unwrap(), transform(rng), id);
+        let mut k = Component::new(Name::new(&name_text(rng)).unwrap(), transform(rng), id);
         if k.identifier().is_some() && rng.chance(1, 2) {
             k.replace_lib(pdict(rng, 1, plain));
         }
@@ -232,6 +281,20 @@ pub fn witness(k: usize) -> Option<Glyph> {
             d.insert("k".into(), plist::Value::Boolean(true));
             p.replace_lib(d);
             g.contours.push(Contour::new(vec![p], Some(Identifier::new("c&amp;").unwrap())));
+        }
+        13 => g.note = Some("\u{3000}\u{3053}\u{306e}\u{5b57}".into()),
+        14 => g.note = Some("12\u{a0}".into()),
+        15 => g.note = Some("\u{a0}".into()),
+        16 => g.note = Some("\u{b}vt ff\u{c}".into()),
+        17 => g.note = Some("\u{2028} \u{85}x\u{2003}\t\u{2029}".into()),
+        18 => {
+            g = Glyph::new("\u{a0}g \u{3000}");
+            g.anchors.push(Anchor::new(1.0, 2.0, Some(Name::new(" a\u{2003}").unwrap()), None, Some(Identifier::new(" i ").unwrap())));
+            g.guidelines.push(Guideline::new(Line::Vertical(1.0), Some(Name::new("\u{3000}").unwrap()), None, None));
+            g.components.push(Component::new(Name::new("\u{a0}b ").unwrap(), AffineTransform::default(), None));
+            g.image = Some(Image::new(PathBuf::from("\u{a0}i.png\u{3000}"), None, AffineTransform::default()).unwrap());
+            g.lib.insert("\u{a0}k\u{3000}".into(), plist::Value::String("\u{2003}v\u{a0}".into()));
+            g.lib.insert("k2".into(), plist::Value::String("\u{a0}".into()));
         }
         _ => return None,
     }
